@@ -18,6 +18,27 @@ fn seal_with(db: &Database<InMemoryCas>, net: NetID, m: u128, delta: Option<i8>)
     .map_err(|_| ())
 }
 
+/// seal(Some{delta}) of the block at `height` (>= 2) of a chain whose state was fabricated at height - 1 through from_block
+fn seal_at(db: &Database<InMemoryCas>, net: NetID, height: u64, m: u128, delta: Option<i8>) -> Result<u128, ()> {
+    let a = Address(tmelcrypt::hash_single(b"x"));
+    let cfg = GenesisConfig { network: net, init_coindata: mk_coin(a, 1000, Denom::Mel, &[]), stakes: Default::default(), init_fee_pool: CoinValue(1 << 20), init_fee_multiplier: m };
+    std::panic::catch_unwind(std::panic::AssertUnwindSafe(|| {
+        let s0 = cfg.realize(db).seal(None);
+        let hd = s0.header();
+        let prev = Header { height: BlockHeight(height - 2), ..hd };
+        let mut hist = s0.raw_history_smt();
+        hist.insert(tmelcrypt::hash_single(&stdcode::serialize(&BlockHeight(height - 2)).unwrap()).0, &stdcode::serialize(&prev).unwrap());
+        let nh = Header { height: BlockHeight(height - 1), previous: prev.hash(), history_hash: tmelcrypt::HashVal(hist.root_hash()), ..hd };
+        let t = melstf::SealedState::from_block(&Block { header: nh, transactions: Default::default(), proposer_action: None }, &s0.raw_stakes(), db);
+        let u = t.next_unsealed();
+        let act = delta.map(|d| ProposerAction { fee_multiplier_delta: d, reward_dest: a });
+        let sealed = u.seal(act);
+        assert_eq!(sealed.header().height.0, height);
+        sealed.header().fee_multiplier
+    }))
+    .map_err(|_| ())
+}
+
 pub fn grid(out: &mut crate::Out, seed: u64, thorough: bool) {
     let db = Database::new(InMemoryCas::default());
     let mut r = StdRng::seed_from_u64(seed);
@@ -56,8 +77,26 @@ pub fn grid(out: &mut crate::Out, seed: u64, thorough: bool) {
                 }
             }
             let none = seal_with(&db, net, *m, None);
-            out.put(json!({"ev": "feemult", "fam": if tip901 { "post-901" } else { "pre-901" }, "net": u8::from(net), "tip901": tip901, "m": js::limbs_u128(*m), "deltas": ds,
+            out.put(json!({"ev": "feemult", "fam": if tip901 { "post-901" } else { "pre-901" }, "net": u8::from(net), "height": 0, "m": js::limbs_u128(*m), "deltas": ds,
                            "outs": outs, "panics": panics, "noaction": none.map(js::limbs_u128).unwrap_or(json!([])), "noactionPanic": none.is_err()}));
+        }
+    }
+    // activation heights: the floor of 2 applies from TIP-901 on (Mainnet 42700; Testnet 500), nothing else switches it
+    for (net, heights) in [(NetID::Mainnet, vec![3u64, 1000, 42699, 42700, 42701, 100000, 179999, 180000, 180001, 829999]), (NetID::Testnet, vec![3, 499, 500, 501, 42700])] {
+        for h in heights {
+            for m in [0u128, 1, 2, 3, 100, 127, 128, 255, 256, 257, 1000, 1 << 40] {
+                let mut outs = vec![];
+                let mut panics = vec![];
+                for d in few.iter() {
+                    match seal_at(&db, net, h, m, Some(*d as i8)) {
+                        Ok(x) => { outs.push(js::limbs_u128(x)); panics.push(false); }
+                        Err(_) => { outs.push(json!([])); panics.push(true); }
+                    }
+                }
+                let none = seal_at(&db, net, h, m, None);
+                out.put(json!({"ev": "feemult", "fam": "heights", "net": u8::from(net), "height": h, "m": js::limbs_u128(m), "deltas": few,
+                               "outs": outs, "panics": panics, "noaction": none.map(js::limbs_u128).unwrap_or(json!([])), "noactionPanic": none.is_err()}));
+            }
         }
     }
     // long runs of extreme deltas: the multiplier of one step feeds the next
@@ -78,7 +117,8 @@ pub fn grid(out: &mut crate::Out, seed: u64, thorough: bool) {
                         Err(_) => { outs.push(json!([])); panics.push(true); }
                     }
                 }
-                out.put(json!({"ev": "feerun", "fam": "run", "net": u8::from(net), "tip901": tip901, "ins": ins, "deltas": ds, "outs": outs, "panics": panics}));
+                out.put(json!({"ev": "feerun", "fam": "run", "net": u8::from(net), "height": 0, "ins": ins, "deltas": ds, "outs": outs, "panics": panics}));
+                let _ = tip901;
             }
         }
     }
